@@ -1028,6 +1028,12 @@ def correspond(ctx):
             r, e = _call(f, list(t))
             B.add('plane_normal:large', f'plane {hx} {atol_s} {Vs} %d %d %d' % t, r, e, _cmp_plane(Vfr),
                   {'cell': label, 'vects': V.tolist(), 'hkl': list(t)})
+        # the same held in a NARROW integer array whose dtype holds the indices but not their product / lcm
+        for j, (t, held) in enumerate(_overflow_triples(rng, ctx.n(12, 100))):
+            f = box.plane_crystal_to_cartesian if j % 3 else (lambda x: miller.plane_crystal_to_cartesian(x, box))
+            r, e = _call(f, np.array(t, dtype=np.dtype(held)) if held else list(t))
+            B.add('plane_normal:overflow', f'plane {hx} {atol_s} {Vs} %d %d %d' % t, r, e, _cmp_plane(Vfr),
+                  {'cell': label, 'vects': V.tolist(), 'hkl': list(t), 'held_as': held or 'list'})
         # the other entry point (stand-alone functions of atomman.tools.miller given the box)
         for t in rng.sample(nz, ctx.n(60, 400)):
             r, e = _call(miller.plane_crystal_to_cartesian, list(t), box)
@@ -1047,9 +1053,14 @@ def correspond(ctx):
             four = ishex_model and it % 4 == 3
             if four:
                 rows = [list(q) for q in rng.sample([q for q in quads_ok if (q[0], q[1], q[3]) != (0, 0, 0)], cnt)]
+            elif it % 3 == 0:           # mixed zero patterns, each pattern first in turn
+                pats = [PATTERNS[(it // 3 + ci) % 7]] + [rng.choice(PATTERNS) for _ in range(cnt - 1)]
+                rows = [_pattern_row(rng, p_) for p_ in pats]
             else:
                 rows = [list(t) for t in rng.sample(nz, cnt)]
             kind = rng.choice(['valid', 'valid', 'zero', 'half', 'half-cancel', 'guard'])
+            if it % 3 == 0 and not four and cnt > 1:
+                kind = rng.choice(['valid', 'valid', 'valid', 'half'])
             j = rng.randrange(cnt)
             k_ = len(rows[0])
             if kind == 'zero':
@@ -1707,6 +1718,83 @@ def _o_normal_guard_array(ctx, np, box, label, rows, badrow, kind, shape, spec=N
                     f'{e or np.asarray(r).tolist()})', replay)
 
 
+PATTERNS = ['h00', '0k0', '00l', 'hk0', 'h0l', '0kl', 'hkl']     # the seven zero patterns = the seven branches of the code
+
+
+def _pattern_row(rng, pat, hi=6, nonneg=False):
+    """a plane of the zero pattern `pat` (non-zero entries 1..hi, any sign)"""
+    return [0 if c == '0' else rng.randint(1, hi) * (1 if nonneg else rng.choice([1, -1])) for c in pat]
+
+
+def _pattern_orders(rng, n_pairs, hi=6, nonneg=False):
+    """arrays of planes of MIXED zero patterns in chosen ORDERS: one plane per pattern, each pattern FIRST in turn (the rest
+    shuffled), the reverse, and ordered pairs (p, q) of patterns (all 49 when n_pairs >= 49).  What a per-row loop does with
+    the first row (allocate the output from its result: dtype, shape) shows only when that row is of the odd kind."""
+    base = {p: _pattern_row(rng, p, hi, nonneg) for p in PATTERNS}
+    out = []
+    for p in PATTERNS:
+        rest = [q for q in PATTERNS if q != p]
+        rng.shuffle(rest)
+        out.append(([p] + rest, [base[p]] + [base[q] for q in rest]))
+    pairs = [(p, q) for p in PATTERNS for q in PATTERNS]
+    if n_pairs < len(pairs):
+        pairs = rng.sample(pairs, n_pairs)
+    for p, q in pairs:
+        out.append(([p, q], [_pattern_row(rng, p, hi, nonneg), _pattern_row(rng, q, hi, nonneg)]))
+    return out
+
+
+def _o_normal_rows(ctx, np, box, label, rows, shape=None, held=None, entry='Box', four=False, spec=None):
+    """an ARRAY of planes in ONE call: every row of the result is the unit reciprocal-lattice direction of its row of
+    indices (exact oracle, row by row), whatever the ORDER of the rows and whatever kind of plane comes first; the result is
+    a floating-point array (an integer array cannot hold unit normals).  `held`: dtype of the caller's array (None: nested
+    list); `four`: the rows are handed over in the four-index form (hexagonal cells)."""
+    rows = [[int(v) for v in r] for r in rows]
+    shape = tuple(shape) if shape else (len(rows),)
+    given = [[r[0], r[1], -(r[0] + r[1]), r[2]] for r in rows] if four else rows
+    k = len(given[0])
+    replay = {'op': 'normal_rows', 'rows': rows, 'shape': list(shape), 'held': held, 'entry': entry, 'four': four,
+              'vects': box.vects.tolist(), 'origin': box.origin.tolist(), 'cell': label}
+    if spec is not None:
+        replay['spec'] = spec
+    arr = np.array(given, dtype=np.dtype(held) if held else np.int64).reshape(shape + (k,))
+    if arr.reshape(-1, k).tolist() != given:
+        raise cm.InfraError(f'harness: a {held} array does not hold {given}')
+    arg = arr if held else arr.tolist()
+    what = (f'plane_crystal_to_cartesian of the {len(rows)} planes {given} in one call (leading shape {list(shape)}, held as '
+            f'{"a " + held + " array" if held else "a nested list"}, {entry} entry point) on a {label} cell')
+    if entry == 'Box':
+        got, e = _call(box.plane_crystal_to_cartesian, arg)
+    else:
+        from atomman.tools import miller as _m
+        got, e = _call(_m.plane_crystal_to_cartesian, arg, box)
+    if e is not None:
+        ctx.violate('plane_normal:raises', f'{what} raised {e}; every row is a plane', replay)
+        return
+    got = np.asarray(got)
+    if got.shape != shape + (3,):
+        ctx.violate('plane_normal:shape', f'{what} returned shape {got.shape}', replay)
+        return
+    V = [[_F(x) for x in row] for row in box.vects]
+    flat = got.reshape(-1, 3)
+    for j, hkl in enumerate(rows):
+        ex = _normal_expect(V, hkl)
+        if ex is None:
+            return
+        unit, tol, det, _gn = ex
+        nl = [float(v) for v in flat[j].tolist()]
+        if det < 0 and sum(a * b for a, b in zip(nl, unit)) < 0:      # left-handed: the line only (see _o_normal)
+            unit = [-x for x in unit]
+        if not all(abs(a - b) <= tol for a, b in zip(nl, unit)):
+            ctx.violate('plane_normal:reciprocal', f'{what}: row {j} = {given[j]} gives {flat[j].tolist()} (result dtype '
+                        f'{got.dtype}), the unit reciprocal-lattice direction of {hkl} is {unit} (vects {box.vects.tolist()})',
+                        dict(replay, row=j))
+            return
+    if got.dtype.kind != 'f':
+        ctx.violate('plane_normal:dtype', f'{what} returned an array of dtype {got.dtype}: unit normals are not integers',
+                    replay)
+
+
 def _o_same_direction(ctx, np, miller, hexbox, t, spec=None):
     """[uvtw] denotes u a1 + v a2 + t a3 + w c with a3 = -a1-a2; must equal the 3-index Cartesian vector
     (whatever the orientation of the hexagonal cell, its origin, and what the object held before)."""
@@ -1755,46 +1843,17 @@ def _o_vector_cart(ctx, np, miller, box, label, uvw, spec=None):
             return
 
 
-def _o_normal(ctx, np, box, label, hkl, rng, quad=None, spec=None, entry='Box'):
-    """normal = unit vector along h a*+k b*+l c* (right-handed cell); perpendicular to exactly the zone-law vectors.
-    With `quad` = (h k i l), i = -(h+k), on a hexagonal cell the four-index form is what is passed to the code: it
-    denotes the same plane, hence the same normal."""
-    hkl = list(hkl)
-    V = [[_F(x) for x in row] for row in box.vects]
+def _normal_expect(V, hkl):
+    """exact expectation for the normal of (hkl) in the cell with rows V (Fractions): -> None for a flat cell, else
+    (unit, tol, det, gn): `unit` = the unit vector along sign(det V) * g, g = det V * (h a* + k b* + l c*) (for a
+    right-handed cell the unit reciprocal-lattice direction, for a left-handed one its opposite), `tol` the derived
+    rounding bound of the two-vector construction, gn = |g|."""
     g, det = _recip_dir(V, hkl)
     if det == 0:
-        return
-    given = hkl if quad is None else list(quad)
-    if sum(abs(x) for x in hkl) % 5 == 0:
-        given = [float(x) for x in given]       # integer indices held in a float array (what fromstring returns)
-    if entry == 'Box':
-        n, e = _call(box.plane_crystal_to_cartesian, given)
-    else:
-        from atomman.tools import miller as _m
-        n, e = _call(_m.plane_crystal_to_cartesian, given, box)
-    replay = {'op': 'normal', 'hkl': hkl, 'vects': box.vects.tolist(), 'origin': box.origin.tolist(), 'cell': label,
-              'entry': entry}
-    if spec is not None:
-        replay['spec'] = spec
-    if quad is not None:
-        replay['quad'] = given
-    if e is not None:
-        ctx.violate('plane_normal:raises', f'plane_crystal_to_cartesian({given}) raised {e} on a {label} cell', replay)
-        return
-    if np.asarray(n).shape != (3,):
-        ctx.violate('plane_normal:shape', f'plane_crystal_to_cartesian({given}) on a {label} cell returned shape '
-                    f'{np.asarray(n).shape}', replay)
-        return
+        return None
     gn = math.sqrt(float(_fdot(g, g)))
     sd = 1.0 if det > 0 else -1.0
     unit = [sd * float(x) / gn for x in g]          # g = det V * (h a* + k b* + l c*)
-    hand = 1.0
-    if det < 0:
-        # a LEFT-handed cell is outside the property's quantifier as far as the SENSE of the normal goes:
-        # the line of the normal, its unit length and the zone law still apply
-        hand = 1.0 if sum(a * b for a, b in zip(np.asarray(n).tolist(), unit)) >= 0 else -1.0
-        unit = [hand * x for x in unit]
-        det = -det
     rown = [math.sqrt(float(_fdot(r, r))) for r in V]
     # conditioning of the two-vector construction is not visible here: bound it by the worst in-plane pair the
     # code can pick, |a|,|b| <= 2*lcm * max row norm
@@ -1803,11 +1862,63 @@ def _o_normal(ctx, np, box, label, hkl, rng, quad=None, spec=None, entry='Box'):
         if x:
             m = m * abs(x) // math.gcd(m, abs(x))
     big = (2 * m * max(rown)) ** 2
-    tol = 16 * U * big * float(det) / (gn * float(det)) * 1.0 + 1e-12
+    tol = 16 * U * big / gn + 1e-12
     # ... sharpened by the rounding bound of the construction from the two textbook in-plane vectors (never larger): with
     # indices in the thousands the crude bound above would hide an in-plane vector that is off by one lattice step
     tol = min(tol, _inplane_bound(hkl, V, gn) + 1e-12)
     tol = min(max(tol, 1e-12), 1e-6)
+    return unit, tol, det, gn
+
+
+def _o_normal(ctx, np, box, label, hkl, rng, quad=None, spec=None, entry='Box', held=None):
+    """normal = unit vector along h a*+k b*+l c* (right-handed cell); perpendicular to exactly the zone-law vectors.
+    With `quad` = (h k i l), i = -(h+k), on a hexagonal cell the four-index form is what is passed to the code: it
+    denotes the same plane, hence the same normal.  `held`: the integer dtype of the array the caller holds the indices
+    in (None: a plain list, or a float list for every fifth index set)."""
+    hkl = list(hkl)
+    V = [[_F(x) for x in row] for row in box.vects]
+    ex = _normal_expect(V, hkl)
+    if ex is None:
+        return
+    unit, tol, det, gn = ex
+    given = hkl if quad is None else list(quad)
+    shown = given
+    if held is not None:
+        given = np.array(given, dtype=np.dtype(held))
+        if given.tolist() != shown:
+            raise cm.InfraError(f'harness: a {held} array does not hold {shown}')
+        shown = f'{shown} held as a {held} array'
+    elif sum(abs(x) for x in hkl) % 5 == 0:
+        given = [float(x) for x in given]       # integer indices held in a float array (what fromstring returns)
+        shown = given
+    if entry == 'Box':
+        n, e = _call(box.plane_crystal_to_cartesian, given)
+    else:
+        from atomman.tools import miller as _m
+        n, e = _call(_m.plane_crystal_to_cartesian, given, box)
+    replay = {'op': 'normal', 'hkl': hkl, 'vects': box.vects.tolist(), 'origin': box.origin.tolist(), 'cell': label,
+              'entry': entry}
+    if held is not None:
+        replay['held'] = held
+    if spec is not None:
+        replay['spec'] = spec
+    if quad is not None:
+        replay['quad'] = list(quad)
+    given = shown
+    if e is not None:
+        ctx.violate('plane_normal:raises', f'plane_crystal_to_cartesian({given}) raised {e} on a {label} cell', replay)
+        return
+    if np.asarray(n).shape != (3,):
+        ctx.violate('plane_normal:shape', f'plane_crystal_to_cartesian({given}) on a {label} cell returned shape '
+                    f'{np.asarray(n).shape}', replay)
+        return
+    hand = 1.0
+    if det < 0:
+        # a LEFT-handed cell is outside the property's quantifier as far as the SENSE of the normal goes:
+        # the line of the normal, its unit length and the zone law still apply
+        hand = 1.0 if sum(a * b for a, b in zip(np.asarray(n).tolist(), unit)) >= 0 else -1.0
+        unit = [hand * x for x in unit]
+        det = -det
     nl = n.tolist()
     if not all(abs(a - b) <= tol for a, b in zip(nl, unit)) or abs(sum(x * x for x in nl) - 1.0) > 1e-12:
         ctx.violate('plane_normal:reciprocal', f'normal of {given} in a {label} cell ({entry} entry point) is {nl}, the unit '
@@ -2057,6 +2168,67 @@ def _o_all_indices(ctx, np, miller, m):
             or list(map(tuple, allr.tolist())) != wantr:
         ctx.violate('all_indices', f'all_indices({m}) does not list exactly the non-zero triples / the coprime triples',
                     {'op': 'all_indices', 'maxindex': m})
+
+
+BIG_BOUNDS = [37, 41, 43, 47, 53]            # the primes past any table 2..31; (2m+1)^3 - 1 = 421874 ... 1225042 rows
+BIGGER_BOUNDS = [59, 61, 64, 67, 71, 73, 97, 101]
+
+
+def _o_all_indices_big(ctx, np, miller, m):
+    """all_indices at bounds where a Python set of tuples is too slow (m > 20): the same clause, vectorised.  Without
+    `reduce`: exactly the (2m+1)^3 - 1 non-zero triples within the bound, each once.  With `reduce`: exactly the triples
+    within the bound whose gcd is 1 (every direction once, no row with a common factor), in lexicographic order.  Rows are
+    compared through the key ((h+m)(2m+1) + (k+m))(2m+1) + (l+m) (injective on the bound; < 2^63 for every m here)."""
+    replay = {'op': 'all_indices', 'maxindex': m}
+    w = 2 * m + 1
+    rng_ = np.arange(-m, m + 1, dtype=np.int64)
+    H, K, L = np.meshgrid(rng_, rng_, rng_, indexing='ij')
+    H, K, L = H.ravel(), K.ravel(), L.ravel()                  # lexicographic order
+    g = np.gcd(np.gcd(np.abs(H), np.abs(K)), np.abs(L))
+    key_all = ((H + m) * w + (K + m)) * w + (L + m)
+    want_n = key_all[g != 0]
+    want_r = key_all[g == 1]
+    for reduce, want in ((False, want_n), (True, want_r)):
+        got, e = _call(lambda: miller.all_indices(m, reduce=reduce))
+        what = f'all_indices({m}, reduce={reduce})'
+        if e is not None:
+            ctx.violate('all_indices', f'{what} raised {e}', replay)
+            return
+        got = np.asarray(got)
+        if got.ndim != 2 or got.shape[1] != 3 or got.dtype.kind not in 'iu':
+            ctx.violate('all_indices', f'{what} returned shape {got.shape}, dtype {got.dtype}', replay)
+            return
+        a = got.astype(np.int64)
+        if a.size and int(np.abs(a).max()) > m:
+            j = int(np.argmax(np.abs(a).max(axis=1)))
+            ctx.violate('all_indices', f'{what}: row {j} = {a[j].tolist()} is outside the bound', replay)
+            return
+        keys = ((a[:, 0] + m) * w + (a[:, 1] + m)) * w + (a[:, 2] + m)
+        if reduce:
+            gg = np.gcd(np.gcd(np.abs(a[:, 0]), np.abs(a[:, 1])), np.abs(a[:, 2]))
+            bad = np.nonzero(gg != 1)[0]
+            if bad.size:
+                ex = a[bad[:3]].tolist()
+                ctx.violate('all_indices', f'{what} returned {len(a)} rows ({len(want)} directions have coprime indices within '
+                            f'the bound); {bad.size} rows are not coprime index sets, e.g. rows {bad[:3].tolist()} = {ex}: the '
+                            f'same directions as {[[v // int(gg[b]) for v in r] if gg[b] else r for b, r in zip(bad[:3], ex)]}',
+                            replay)
+                return
+            if len(keys) > 1 and not bool((np.diff(keys) > 0).all()):
+                j = int(np.nonzero(np.diff(keys) <= 0)[0][0])
+                ctx.violate('all_indices', f'{what}: rows {j}, {j + 1} = {a[j:j + 2].tolist()} are repeated / not in '
+                            f'lexicographic order', replay)
+                return
+            sk = keys
+        else:
+            sk = np.sort(keys)
+        if len(sk) != len(want) or not np.array_equal(sk, want):
+            missing = np.setdiff1d(want, sk)[:3]
+            extra = np.setdiff1d(sk, want)[:3]
+            unk = lambda q: [[int(x // (w * w)) - m, int((x // w) % w) - m, int(x % w) - m] for x in q]     # noqa
+            ctx.violate('all_indices', f'{what} returned {len(a)} rows, {len(want)} expected; missing e.g. {unk(missing)}, '
+                        f'not expected (or repeated) e.g. {unk(extra)}', replay)
+            return
 
 
 _OPEN = {'[': ']', '(': ')', '<': '>', '{': '}'}
@@ -2662,6 +2834,61 @@ def _trap_triples(rng, n):
     return out
 
 
+# integer dtypes an index array can have, with the number of value bits: products / least common multiples of the indices
+# formed IN that dtype wrap from 2^bits on
+INT_BITS = {'int8': 7, 'int16': 15, 'int32': 31, 'uint8': 8, 'uint16': 16, 'uint32': 32, 'int64': 63}
+PLANE_CAP3, PLANE_CAP2 = 2 ** 17, 2 ** 26      # three / two non-zero indices: lcm and products stay below 2^53 (exact in
+#                                                 int64 AND as the doubles m / h the code forms)
+
+
+def _overflow_triples(rng, n, dtypes=None):
+    """plane indices that an integer array of a NARROW dtype can hold but whose product h*k*l (h*k for hk0, ...) or least
+    common multiple does not fit that dtype: int32 -> three indices beyond 2^(31/3) = 1291 or two beyond 46341 (up to
+    2^17 / 2^26, where everything is still exact in int64 and in doubles); int16 -> three beyond 32 / two beyond 181; int8;
+    the unsigned ones likewise.  Classes: random values in that band, values just around the square / cube root of the
+    dtype's limit, powers of two whose product is a multiple of 2^bits (wraps to exactly 0: (2048, 2048, 1024) in int32),
+    every zero pattern with two or three non-zero indices, every sign pattern.  -> [(hkl, dtype)]"""
+    out = []
+    dts = dtypes or ['int32', 'int32', 'int32', 'int32', 'int16', 'int8', 'uint8', 'uint16', 'uint32', 'int64']
+    while len(out) < n:
+        dt = rng.choice(dts)
+        bits = INT_BITS[dt]
+        top = (2 ** bits - 1) if dt != 'int64' else 2 ** 31
+        nzc = rng.choice([3, 3, 2, 2])
+        cap = min(top, PLANE_CAP3 if nzc == 3 else PLANE_CAP2)
+        root = int(round((2 ** min(bits, 31 if dt == 'int64' else bits)) ** (1.0 / nzc)))
+        cls = rng.random()
+        if cls < 0.4:               # the band between the root of the dtype's limit and its end
+            vals = [rng.randint(min(root, cap), cap) for _ in range(nzc)]
+        elif cls < 0.6:             # just around the root: the product is just below / just above the limit
+            vals = [max(1, root + rng.randint(-2, 3)) for _ in range(nzc)]
+        elif cls < 0.8:             # powers of two: the product is a multiple of 2^bits (wraps to 0) or hits the sign bit
+            total = rng.choice([bits, bits, bits + 1, bits + 2, bits - 1, 32, 33])
+            es = [total // nzc] * nzc
+            for j in range(total - sum(es)):
+                es[j] += 1
+            for _ in range(3):      # move exponent between the indices
+                a, b = rng.randrange(nzc), rng.randrange(nzc)
+                d = rng.randint(0, 3)
+                if es[a] - d >= 0:
+                    es[a] -= d
+                    es[b] += d
+            vals = [min(2 ** e_, 2 ** (cap.bit_length() - 1)) for e_ in es]
+        else:                       # one index at the end of the dtype (or of the cap), the others large
+            vals = [cap - rng.randint(0, 2)] + [rng.randint(max(1, root // 2), cap) for _ in range(nzc - 1)]
+        vals = [min(v, cap) for v in vals]
+        if dt.startswith('u'):
+            sg = [1] * nzc
+        else:
+            sg = [rng.choice([1, -1]) for _ in range(nzc)]
+        t = [a * b for a, b in zip(vals, sg)]
+        rng.shuffle(t)
+        if nzc == 2:
+            t.insert(rng.randrange(3), 0)
+        out.append((tuple(t), dt if dt != 'int64' else rng.choice(['int64', None])))
+    return out
+
+
 def _inplane_bound(hkl, V, gn):
     """rounding bound of a plane normal built as (a.V) x (b.V) / norm from the two textbook in-plane lattice vectors of
     the zero pattern (anchor 'plane normal from two in-plane lattice vectors chosen per zero pattern'): with exact integer
@@ -2796,7 +3023,8 @@ def _dtype_cases(rng, ctx, cells):
     others = [c for c in cells if c[3]['hand'] == 'right']
     for name, k in DTYPE_FNS:
         for dtype in NARROW:
-            for regime in ('small', 'limit', 'limit'):
+            for regime in ('small', 'limit', 'limit') + (('overflow', 'overflow') if 'plane_crystal' in name and dtype in INT_BITS
+                                                         else ()):
                 extra = None
                 if 'crystal_to_cartesian' in name:
                     label, box, _spec, _cell = rng.choice(others)
@@ -2808,8 +3036,17 @@ def _dtype_cases(rng, ctx, cells):
                 cnt = 1
                 for d in shape:
                     cnt *= d
-                rows = _narrow_rows(rng, dtype, k, cnt, regime, cap=10 ** 4 if 'plane_crystal' in name else None,
-                                    third=(name == 'vector4to3' and dtype not in UNSIGNED))
+                if regime == 'overflow':    # indices the dtype holds whose product / lcm it does not hold
+                    shape = rng.choice([[2], [3], [5], [2, 2]])
+                    cnt = 1
+                    for d in shape:
+                        cnt *= d
+                    rows = [list(t) for t, _dt in _overflow_triples(rng, cnt, [dtype])]
+                    if rng.random() < 0.5:
+                        rows[rng.randrange(cnt)] = [rng.randint(1, 6), rng.randint(-6, 6) if not dtype.startswith('u') else 2, 1]
+                else:
+                    rows = _narrow_rows(rng, dtype, k, cnt, regime, cap=10 ** 4 if 'plane_crystal' in name else None,
+                                        third=(name == 'vector4to3' and dtype not in UNSIGNED))
                 out.append({'fn': name, 'dtype': dtype, 'rows': rows, 'shape': shape, 'extra': extra, 'regime': regime})
     return out
 
@@ -2844,6 +3081,9 @@ def _o_big(ctx, np, am, miller, case):
     arr = _big_rows(np, case['seed'], n, k, case['dtype'], case.get('hi', 9))
     what = (f'{name} on {n} index sets in one call ({case["dtype"]} array of shape {arr.shape}, entries up to {case.get("hi", 9)} '
             f'from default_rng({case["seed"]}))')
+    if case.get('first'):       # the FIRST row of the zero pattern asked for (a per-row loop shapes its output after it)
+        r0 = _pattern_row(random.Random(case['seed']), case['first'], min(case.get('hi', 9), 9))
+        arr[0] = [r0[0], r0[1], -(r0[0] + r0[1]), r0[2]] if k == 4 else r0
     bad = case.get('bad')
     if bad is not None:
         j, kind = bad
@@ -2900,6 +3140,9 @@ def _o_big(ctx, np, am, miller, case):
                             f'an array of {min(block, n - lo)} rows ({e2 or ""}); e.g. row {j} = {arr[j].tolist()} gives '
                             f'{got[j].tolist()} in the big call', dict(replay, row=int(j)))
                 return
+    if 'plane_crystal' in name and got.dtype.kind != 'f':
+        ctx.violate('plane_normal:dtype', f'{what} returned an array of dtype {got.dtype}: unit normals are not integers', replay)
+        return
     if 'plane_crystal' in name and box is not None:
         # all rows against the reciprocal-lattice direction (vectorised float oracle: unit(hkl . inv(V)^T), det V > 0)
         V = np.array(box.vects, dtype=float)
@@ -2952,7 +3195,16 @@ def _big_cases(rng, ctx, cells, broken):
     mid = [4097, 4100, 4912, 5000, 5001, 8193]
     for name, k in planes:
         plan.append((name, k, rng.choice(nondiag), rng.choice(mid), True))
-    plan.append((rng.choice(planes)[0], 3, rng.choice(nondiag), rng.choice([65536, 65537, 68920, 70001]), False))
+    # one call with MORE THAN 100000 planes per run (the clean code takes ~0.2 ms per plane: ~20 s), on a cell whose reciprocal
+    # matrix is not symmetric; thorough: also 2^16 + 1, 2^18 + 1 and 300001 planes
+    skew = [c for c in nondiag if not _np().allclose(_np().linalg.inv(c[1].vects), _np().linalg.inv(c[1].vects).T, rtol=1e-3, atol=1e-6)]
+    plan.append((rng.choice(planes)[0], 3, rng.choice(skew or nondiag), rng.choice([100001, 100003, 102401, 110001, 131073]), False))
+    if ctx.thorough:
+        plan.append((rng.choice(planes)[0], 3, rng.choice(skew or nondiag), rng.choice([65537, 70001]), False))
+        plan.append((rng.choice(planes)[0], 3, rng.choice(skew or nondiag), 262145, False))
+        plan.append((rng.choice(planes)[0], 3, rng.choice(skew or nondiag), 300001, False))
+        if hexs:
+            plan.append(('plane_crystal_to_cartesian', 4, rng.choice(hexs), 100001, False))
     plan.append((rng.choice(planes)[0], 3, rng.choice(nondiag), rng.choice([1001, 1025, 2001, 2049]), True))
     if hexs:
         plan.append(('plane_crystal_to_cartesian', 4, rng.choice(hexs), rng.choice(mid), True))
@@ -2961,7 +3213,8 @@ def _big_cases(rng, ctx, cells, broken):
             plan.append(('plane_crystal_to_cartesian', 3, rng.choice(nondiag), n, True))
     for name, k, c, n, blocks in plan:
         out.append({'fn': name, 'n': n, 'k': k, 'seed': rng.getrandbits(32), 'dtype': rng.choice(['int64', 'int64', 'int32', 'float64']),
-                    'extra': ex_of(c), 'blocks': blocks, 'singles': 12, 'hi': rng.choice([9, 40, 300, 3000])})
+                    'extra': ex_of(c), 'blocks': blocks, 'singles': 12, 'hi': rng.choice([9, 40, 300, 3000]),
+                    'first': rng.choice(PATTERNS)})
     c = rng.choice(nondiag)
     for kind in ('zero', 'half'):
         n = rng.choice([4097, 4500])
@@ -3098,9 +3351,17 @@ def search(ctx, broken):
         # indices beyond the exhaustive bound where integer bookkeeping done in floating point goes wrong: 49, 98, 103,
         # 107, ... (k * (1/k) != 1) next to small indices, every zero pattern with a division; random indices to 10^4
         for t in _trap_triples(rng, ctx.n(24, 200) * mult):
-            ctx.stats.case('oracle:normal', (label, ci, t))
-            _guard(ctx, 'plane_normal', {'op': 'normal', 'hkl': list(t), 'spec': spec, 'cell': label, 'entry': entry},
-                   _o_normal, ctx, np, box, label, t, rng, None, spec, entry)
+            held = rng.choice([None, None, 'int32', 'int64', 'int16' if max(map(abs, t)) < 2 ** 15 else 'int32'])
+            ctx.stats.case('oracle:normal', (label, ci, t, held))
+            _guard(ctx, 'plane_normal', {'op': 'normal', 'hkl': list(t), 'spec': spec, 'cell': label, 'entry': entry, 'held': held},
+                   _o_normal, ctx, np, box, label, t, rng, None, spec, entry, held)
+        # ... and held in a NARROW integer array with values whose product / lcm does not fit that dtype (int32: three
+        # indices beyond 1291, two beyond 46341, powers of two multiplying to 2^31 / 2^32; int16, int8, unsigned likewise)
+        for t, held in _overflow_triples(rng, ctx.n(16, 120) * mult):
+            e2 = entry if rng.random() < 0.7 else ('miller' if entry == 'Box' else 'Box')
+            ctx.stats.case('oracle:normal-overflow', (label, ci, t, held))
+            _guard(ctx, 'plane_normal', {'op': 'normal', 'hkl': list(t), 'spec': spec, 'cell': label, 'entry': e2, 'held': held},
+                   _o_normal, ctx, np, box, label, t, rng, None, spec, e2, held)
         for _ in range(ctx.n(6, 40)):           # arrays of planes with ONE row that is no (integer) plane
             shape = rng.choice([(2,), (3,), (4,), (2, 2), (1, 3), (3, 1), (2, 1, 2)])
             cnt = 1
@@ -3128,6 +3389,19 @@ def search(ctx, broken):
             _guard(ctx, 'plane_normal:guard-array', {'op': 'normal_guard_array', 'rows': rows, 'badrow': badrow, 'kind': kind,
                                                      'shape': list(shape), 'spec': spec, 'cell': label},
                    _o_normal_guard_array, ctx, np, box, label, rows, badrow, kind, shape, spec)
+        # arrays of planes of mixed zero patterns, every pattern FIRST in turn, ordered pairs of patterns; every way of
+        # holding them; both entry points; four-index form on hexagonal cells
+        ishexcell = label.startswith('hexagonal')
+        for oi, (pats, rows) in enumerate(_pattern_orders(rng, ctx.n(14, 49), hi=rng.choice([6, 6, 40]))):
+            held = [None, 'int64', 'int32', 'float64', 'int8', 'int16'][(oi + ci) % 6]
+            n_ = len(rows)
+            shape = rng.choice([(n_,), (n_,), (1, n_), (n_, 1)])
+            e2 = 'Box' if (oi + ci) % 3 else 'miller'
+            four = ishexcell and oi % 4 == 1
+            ctx.stats.case('oracle:normal-order', (label, ci, tuple(pats), held, shape, four))
+            _guard(ctx, 'plane_normal', {'op': 'normal_rows', 'rows': rows, 'shape': list(shape), 'held': held, 'entry': e2,
+                                         'four': four, 'spec': spec, 'cell': label},
+                   _o_normal_rows, ctx, np, box, label, rows, shape, held, e2, four, spec)
     ctx.extra['oracle_cells'] = [f'{c[0]}:{_hist(c[2])}' for c in cells]
     r, e = _call(cells[0][1].plane_crystal_to_cartesian, [0, 0, 0])
     if e != 'err:value':
@@ -3265,9 +3539,16 @@ def search(ctx, broken):
         _guard(ctx, 'reduce:leading-shape', {'op': 'reduce_shape', 'rows': rows, 'shape': list(shape)},
                _o_reduce_shape, ctx, np, miller, rows, shape)
     #    small bounds, the documented default 10, larger bounds ((2m+1)^3 - 1 rows: 4912 at 8, 35936 at 16, 68920 at 20)
-    for m in list(range(0, ctx.n(4, 7))) + [8, 10, 12, 16, 20] + ([25, 32] if ctx.thorough else []):
+    #    and bounds past every small prime: 37 ... 53 (one per quick run, all when thorough, then also 59 ... 101), one bound
+    #    between 21 and 36 (vectorised oracle: coprime rows, every direction once, lexicographic order)
+    bounds = list(range(0, ctx.n(4, 7))) + [8, 10, 12, 16, 20] + ([25, 32] if ctx.thorough else [])
+    bounds += [rng.randint(21, 36)] + (BIG_BOUNDS + BIGGER_BOUNDS if ctx.thorough else
+                                       ([rng.choice(BIG_BOUNDS)] + ([rng.choice(BIG_BOUNDS), rng.choice(BIGGER_BOUNDS[:6])] if broken else [])))
+    ctx.extra['all_indices_bounds'] = bounds
+    for m in bounds:
         ctx.stats.case('oracle:all_indices', m, nontrivial=m > 0)
-        _guard(ctx, 'all_indices', {'op': 'all_indices', 'maxindex': m}, _o_all_indices, ctx, np, miller, m)
+        _guard(ctx, 'all_indices', {'op': 'all_indices', 'maxindex': m}, _o_all_indices if m <= 20 else _o_all_indices_big,
+               ctx, np, miller, m)
         if m in (1, 2, 3, 10):
             _guard(ctx, 'all_indices', {'op': 'all_indices_flags', 'maxindex': m}, _o_all_indices_flags, ctx, np, miller, m)
     # 6. strings
@@ -3332,7 +3613,8 @@ def _replay(ctx, payload):
         _o_same_direction(ctx, np, miller, hb, t, r.get('spec'))
     elif op == 'normal':
         box = _build(_spec_of(r), {'planes': [r.get('quad') or r['hkl']]})
-        _o_normal(ctx, np, box, r.get('cell', '?'), r['hkl'], rng, r.get('quad'), r.get('spec'), r.get('entry', 'Box'))
+        _o_normal(ctx, np, box, r.get('cell', '?'), r['hkl'], rng, r.get('quad'), r.get('spec'), r.get('entry', 'Box'),
+                  r.get('held'))
     elif op == 'vector_cart':
         box = _build(_spec_of(r), {'vectors': [r['uvw']]})
         _o_vector_cart(ctx, np, miller, box, r.get('cell', '?'), r['uvw'], r.get('spec'))
@@ -3360,6 +3642,9 @@ def _replay(ctx, payload):
         _o_empty(ctx, np, am, miller, r['fn'], r['k'], tuple(r['lead']), r.get('extra'))
     elif op == 'all_indices_flags':
         _o_all_indices_flags(ctx, np, miller, r['maxindex'])
+    elif op == 'normal_rows':
+        _o_normal_rows(ctx, np, _build(_spec_of(r), None), r.get('cell', '?'), r['rows'], r.get('shape'), r.get('held'),
+                       r.get('entry', 'Box'), r.get('four', False), r.get('spec'))
     elif op == 'normal_guard_array':
         _o_normal_guard_array(ctx, np, _build(_spec_of(r), None), r.get('cell', '?'), r['rows'], r['badrow'], r['kind'],
                               tuple(r['shape']), r.get('spec'))
@@ -3374,7 +3659,7 @@ def _replay(ctx, payload):
     elif op == 'reduce':
         _o_reduce(ctx, np, miller, r['idx'])
     elif op == 'all_indices':
-        _o_all_indices(ctx, np, miller, r['maxindex'])
+        (_o_all_indices if r['maxindex'] <= 20 else _o_all_indices_big)(ctx, np, miller, r['maxindex'])
     elif op == 'reduce_shape':
         _o_reduce_shape(ctx, np, miller, r['rows'], tuple(r['shape']))
     elif op == 'string':
